@@ -97,6 +97,57 @@ pub fn random_hits(m: &Model, rng: &mut Rng, occ: &[bool; 256], nh: usize, len: 
     (wires, pads)
 }
 
+/// A very busy event: `ncols` adjacent pad columns, in each of them `nt` firing times 12 bins apart, at each time
+/// `per` of the 8 wires of the column and `per` separate 3-row pad clusters fire: about ncols x nt x per avalanches.
+pub fn busy_event(m: &Model, rng: &mut Rng, ncols: usize, nt: usize, per: usize) -> (Wires, Pads) {
+    let len = 10 + 12 * nt + 40;
+    let c0 = rng.usize(32);
+    let mut w: BTreeMap<usize, Vec<f64>> = BTreeMap::new();
+    let mut p: BTreeMap<(usize, usize), Vec<f64>> = BTreeMap::new();
+    for c in 0..ncols {
+        let col = (c0 + c) % 32;
+        for k in 0..8 {
+            w.insert((col * 8 + 8 + k) % 256, vec![0.0; len]);
+        }
+    }
+    let row_base = 20 + rng.usize(400);
+    for c in 0..ncols {
+        let col = (c0 + c) % 32;
+        for j in 0..nt {
+            let t = 10 + 12 * j;
+            let mut ws: Vec<usize> = (0..8).collect();
+            rng.shuffle(&mut ws);
+            for (q, &k) in ws[..per.min(8)].iter().enumerate() {
+                let wire = (col * 8 + 8 + k) % 256;
+                let a = rng.range(300.0, 1000.0).round();
+                for d in -4i32..=4 {
+                    let ww = (wire as i32 + d).rem_euclid(256) as usize;
+                    if let Some(sig) = w.get_mut(&ww) {
+                        let f = NF[d.unsigned_abs() as usize];
+                        for (jj, r) in m.wr.iter().enumerate() {
+                            if t + jj < len {
+                                sig[t + jj] += a * f * r;
+                            }
+                        }
+                    }
+                }
+                let pa = (a * rng.range(3.0, 8.0)).round();
+                let row0 = row_base + 12 * q;
+                for dr in -1i32..=1 {
+                    let wgt = [0.45, 1.0, 0.4][(dr + 1) as usize];
+                    let sig = p.entry((col, (row0 as i32 + dr) as usize)).or_insert_with(|| vec![0.0; len]);
+                    for (jj, r) in m.pr.iter().enumerate() {
+                        if t + jj < len {
+                            sig[t + jj] += pa * wgt * r;
+                        }
+                    }
+                }
+            }
+        }
+    }
+    (w.into_iter().collect(), p.into_iter().map(|((c, r), s)| (c, r, s)).collect())
+}
+
 pub fn occupancy(rng: &mut Rng, mode: u64) -> [bool; 256] {
     let mut occ = [false; 256];
     match mode {
